@@ -49,6 +49,8 @@ SHAPES = {
     'gate': {'steps': [S([['gate', 'g1'], ['yield']], ['wait', 1, None, None], True), S([], ['value', 4])]},
     # application-defined WAITING state that runs process code in execute(); callbacks that are async callable objects
     'cwait': {'steps': [S([['soon', 'async_obj', 'ao1'], ['yield']], ['wait', 1, None, None], True), S([['soon', 'async_obj', 'ao2']], ['value', 6])], 'sampling_waiting': True},
+    # a step starts a raw asyncio helper task that outlives it
+    'helper': {'steps': [S([['helper', 'h1', 7], ['yield'], ['yield']], ['continue', 1, [], {}], True), S([['helper', 'h2', 5], ['yield']], ['wait', 2, None, None], True), S([['yield']], ['value', 8], True)]},
     'launcher': {'steps': [S([['launch', CHILD, 50], ['yield'], ['launch', CHILD_WAITS, 51], ['yield']], ['value', 5], True)]},
     'failing': {'steps': [S([['yield'], ['raise', 'x']], ['value', 0], True)]},
 }
@@ -367,13 +369,16 @@ def execute(case):
                                 if not target.has_terminated():
                                     target.call_soon(_probe(target, ev[2], w))
                             elif ev[2] == 'pause':
-                                target.pause('ext')
-                                externally_paused.add(target.pid)
+                                # a request that is answered with a future was only registered: the process is stepping
+                                # and carries it out itself (its hooks then run in its own stepping); one that is
+                                # answered at once was carried out in the requester's code
+                                if not asyncio.isfuture(target.pause('ext')):
+                                    externally_paused.add(target.pid)
                             elif ev[2] == 'play':
                                 target.play()
                             else:
-                                target.kill('ext')
-                                externally_paused.add(target.pid)
+                                if not asyncio.isfuture(target.kill('ext')):
+                                    externally_paused.add(target.pid)
 
         start_due()
         for _ in range(4000):
@@ -428,6 +433,11 @@ def execute(case):
                 if cur is not True:
                     v('current-in-hook', f'pid {pid}: hook {hook} ({pos}, occurrence {counts.get(hook)}): Process.current() is not the process')
                     break
+        # isolation: a scope left in one task is not felt in the context of a helper task that the step started earlier
+        for (hpid, tag), samples in w.extra.get('helper_samples', {}).items():
+            sites['helper'] = sites.get('helper', 0) + len(samples)
+            if len(set(samples)) > 1:
+                v('current-changed-under-spawned-code', f'pid {hpid}: the helper task {tag} started by a step saw Process.current() change without entering or leaving any scope itself: {samples}')
         all_procs = procs + list(w.extra.get('children', []))
         for proc in all_procs:
             if not proc.has_terminated():
